@@ -1,25 +1,27 @@
 /-
-  C17, statement level — the printed procedure BODY (and header) read back through the front end
-  is the procedure, up to the expression normalisation `norm` (a negative literal `-3` is read
+  C17, statement level — the printed procedure (header, assertions, body) read back through the
+  front end is the procedure, up to the expression normalisation (a negative literal `-3` is read
   as `-(3)`).
 
   Model: `ExoModel.PrintStmt` (`ppStmt`/`ppBlock`/`ppProc` = `_print_stmt`/`_print_block`/
   `_print_proc` as token lines; `parseBlock`/`parseLines`/`parseProc` = Python's
   indentation-based block structure + `pyparser.parse_stmt_block`/`parse_fdef` on the printed
-  sub-language).  Names are already resolved (that is part (a) of C17), expressions are part (b)
-  (`Exo.Print.C17.parse_print`), which is used here as a lemma.
+  sub-language) over the expressions of `ExoModel.PrintExprX` (`XExpr` = the expressions of C17(b)
+  plus the atoms `Cfg.field`, `stride(x, d)`, extern calls `f(a, …)`; `ppX`/`parseExprX`).
+  Names are already resolved (part (a) of C17).
 
-  Covered statement forms: `pass`, `x[…] = e`, `x[…] += e`, `Cfg.f = e`,
+  Covered: every expression form `_print_expr` emits inside a procedure (`Read`, `Const`, `USub`,
+  `BinOp`, `ReadConfig`, `StrideExpr`, `Extern`; `WindowExpr` as right-hand side of a window
+  statement and as call argument); the statements `pass`, `x[…] = e`, `x[…] += e`, `Cfg.f = e`,
   `x : T[…] @ MEM` (T ∈ R f16 f32 f64 i8 i32 ui8 ui16; scalar or tensor; with/without memory),
   `w = x[lo:hi, pt, …]`, `for i in seq(lo, hi):` / `par`, `if c:` with and without `else:`
   (a nested `if` in an `else` is printed as `else:` + indented `if`, never `elif`),
-  `f(e, x[lo:hi, …], …)`; arbitrary nesting, any indentation step `w > 0` (`_print_*`: 2;
-  after yapf: 4), any start column.
+  `f(e, x[lo:hi, …], …)`; the header `def name(args):` and the `assert e` lines after it;
+  arbitrary nesting, any indentation step `w > 0` (`_print_*`: 2; after yapf: 4), any column.
 
-  NOT covered (no constructor in `PStmt`/`PExpr`; the tie counts procedures that use them):
-  `free(x)` (never present before compilation), `stride(x, d)`, extern calls and `Cfg.f` reads
-  inside expressions, `assert` lines and the `# @instr` comment of the header, `Window(...)`
-  types (never printed in a procedure).
+  NOT covered: `free(x)` (never present before compilation), the `# @instr` comment (a comment:
+  not syntax, not read back), `Window(...)` types (never printed in a procedure), and — the
+  recorded finding — `bool`/`stride` arguments, which the real printer annotates with a memory.
 
   The theorems are on TOKEN lines; that the characters (`ppBlockS`, in both styles) lex to these
   tokens is checked by the correspondence run (driver `Drivers/C17S.lean`, `harness/printstmt.py`)
@@ -28,68 +30,122 @@
 -/
 import ExoModel.Lemmas.PrintStmtProc
 import ExoModel.Lemmas.PrintStmtNorm
+import ExoModel.Lemmas.PrintExprXEmbed
 
 namespace Exo.PrintStmt.C17Stmt
 open Exo Exo.Print Exo.PrintStmt
 
 /-! ## the concrete program used for non-vacuity -/
 
-private def v (s : String) : PExpr := .var s []
-private def n0 : PExpr := .const false "0"
+private def v (s : String) : XExpr := .var s []
+private def n0 : XExpr := .const false "0"
 
 /-- loop nest with if/else (nested `if` in the `else`), allocations, a window statement, a
-    reduction with a negative literal, a config write, and a call with a window argument -/
+    reduction with a negative literal, config read and write, `stride(…)`, extern calls (nested,
+    without arguments, under a unary minus), and a call with a window argument -/
 def demo : List PStmt := [
   .alloc "tmp" .f32 [.bin .add (v "n") (.const false "1"), .const false "2"] (some "DRAM"),
   .alloc "t" .R [] none,
   .loop false "i" n0 (v "n") [
     .loop true "jj" (.const false "1") (.bin .sub (v "m") (.const false "1")) [
-      .ite (.bin .and (.bin .lt (v "i") (.const false "3")) (.bin .eq (v "jj") (.const false "2")))
-        [.assign "x" [v "i", v "jj"] (.bin .mul (.const false "2.0") (v "s"))]
+      .ite (.bin .and (.bin .lt (v "i") (.const false "3")) (.bin .eq (v "jj") (.cfg "Cfg" "k")))
+        [.assign "x" [v "i", v "jj"]
+          (.bin .mul (.const false "2.0") (.call "relu" [.var "x" [v "i", v "jj"]]))]
         [.ite (v "b") [.reduce "x" [v "i", v "jj"] (.const true "1.5")] [.pass]],
-      .ite (.bin .lt (v "jj") (v "i")) [.assign "t" [] (.neg (.var "x" [v "i", v "jj"]))] []],
+      .ite (.bin .eq (.call "stride" [v "x", n0]) (.const false "1"))
+        [.assign "t" [] (.neg (.call "select" [.var "x" [v "i", v "jj"], .cfg "Cfg" "a",
+            .bin .add (v "s") (.const true "2.0"), .call "zero" []]))] []],
     .window "w" "x" [.iv n0 (v "n"), .pt (.bin .sub (v "i") (.const true "1"))],
-    .call "callee" [.e (v "n"), .win "x" [.pt (v "i"), .iv n0 (v "n")], .e (v "s")]],
-  .writeCfg "Cfg" "a" (v "s"),
+    .call "callee" [.e (v "n"), .win "x" [.pt (v "i"), .iv n0 (v "n")],
+      .e (.bin .mul (.cfg "Cfg" "a") (v "s"))]],
+  .writeCfg "Cfg" "a" (.bin .add (.cfg "Cfg" "a") (v "s")),
   .call "noargs" []]
 
 def demoProc : PProc :=
   ⟨"foo", [⟨"n", .size⟩, ⟨"m", .size⟩, ⟨"b", .ctrl .bool none⟩,
            ⟨"x", .num .f32 [v "n", v "m"] false (some "DRAM")⟩,
            ⟨"w0", .num .f32 [.bin .add (v "n") (.const true "1")] true (some "DRAM")⟩,
-           ⟨"s", .num .f32 [] false (some "DRAM")⟩, ⟨"j", .index⟩], demo⟩
+           ⟨"s", .num .f32 [] false (some "DRAM")⟩, ⟨"j", .index⟩],
+   [.bin .eq (.bin .mod (v "n") (.const false "4")) n0,
+    .bin .eq (.call "stride" [v "w0", n0]) (.const false "1")], demo⟩
 
 /-- the characters the real `str(p)` shows for it (style `fmt`) -/
 example : ppProcS .fmt 0 demoProc = [
     "def foo(n: size, m: size, b: bool, x: f32[n, m] @ DRAM, w0: [f32][n + -1] @ DRAM, s: f32 @ DRAM, j: index):",
+    "    assert n % 4 == 0",
+    "    assert stride(w0, 0) == 1",
     "    tmp: f32[n + 1, 2] @ DRAM",
     "    t: R",
     "    for i in seq(0, n):",
     "        for jj in par(1, m - 1):",
-    "            if i < 3 and jj == 2:",
-    "                x[i, jj] = 2.0 * s",
+    "            if i < 3 and jj == Cfg.k:",
+    "                x[i, jj] = 2.0 * relu(x[i, jj])",
     "            else:",
     "                if b:",
     "                    x[i, jj] += -1.5",
     "                else:",
     "                    pass",
-    "            if jj < i:",
-    "                t = -x[i, jj]",
+    "            if stride(x, 0) == 1:",
+    "                t = -select(x[i, jj], Cfg.a, s + -2.0, zero())",
     "        w = x[0:n, i - -1]",
-    "        callee(n, x[i, 0:n], s)",
-    "    Cfg.a = s",
+    "        callee(n, x[i, 0:n], Cfg.a * s)",
+    "    Cfg.a = Cfg.a + s",
     "    noargs()"] := by decide
 
 /-- … and the characters `_print_proc` returns (style `raw`), first lines -/
-example : (ppProcS .raw 0 demoProc).take 3 = [
+example : (ppProcS .raw 0 demoProc).take 4 = [
     "def foo(n : size, m : size, b : bool, x : f32[n, m] @DRAM, w0 : [f32][n + -1] @DRAM, s : f32 @DRAM, j : index):",
-    "  tmp : f32[n + 1, 2] @DRAM",
-    "  t : R"] := by decide
+    "  assert n % 4 == 0",
+    "  assert stride(w0, 0) == 1",
+    "  tmp : f32[n + 1, 2] @DRAM"] := by decide
+
+/-! ## the extended expressions -/
+
+/-- **Expression round trip, extended** (C17(b) with the atoms `Cfg.f`, `stride(x, d)`,
+    `f(a, …)`): for every `e` in which no comparison is the direct left operand of a comparison,
+    the printed tokens parse back to `e`, negative literals becoming `-` applied to the literal. -/
+theorem parse_print_x (e : XExpr) (h : wfX e = true) : parseX (ppX 0 e) = some (normX e) :=
+  parseX_ppX e h
+
+/-- … and to `e` itself when it has no negative literal -/
+theorem parse_print_x_exact (e : XExpr) (h : wfX e = true) (hn : noNegX e = true) :
+    parseX (ppX 0 e) = some e := by
+  rw [parseX_ppX e h, normX_id e hn]
+
+example : ppXS 0 (.bin .mul (.neg (.call "select" [.var "x" [v "i"], .cfg "Cfg" "a",
+      .bin .add (v "s") (.const true "2.0"), .call "zero" []]))
+      (.bin .sub (.call "stride" [v "x", n0]) (.bin .sub (.cfg "C" "k") (.call "relu" [v "y"]))))
+    = "-select(x[i], Cfg.a, s + -2.0, zero()) * (stride(x, 0) - (C.k - relu(y)))" := by decide
+example : parseX (ppX 0 (.bin .mul (.neg (.call "select" [.var "x" [v "i"], .cfg "Cfg" "a",
+      .bin .add (v "s") (.const true "2.0"), .call "zero" []]))
+      (.bin .sub (.call "stride" [v "x", n0]) (.bin .sub (.cfg "C" "k") (.call "relu" [v "y"])))))
+    = some (.bin .mul (.neg (.call "select" [.var "x" [v "i"], .cfg "Cfg" "a",
+      .bin .add (v "s") (.neg (.const false "2.0")), .call "zero" []]))
+      (.bin .sub (.call "stride" [v "x", n0]) (.bin .sub (.cfg "C" "k") (.call "relu" [v "y"])))) :=
+  parse_print_x _ (by decide)
+/-- the extension is conservative: on the expressions of C17(b) (embedded by `ofPExpr`) the
+    extended printer emits the same tokens and the extended parser reads them back as the
+    embedded `norm e` — the statement of `Exo.Print.C17.parse_print` -/
+theorem parse_print_x_extends (e : PExpr) (h : wf e = true) :
+    ppX 0 (ofPExpr e) = (ppT 0 e).map STok.t ∧
+    parseX ((ppT 0 e).map STok.t) = some (ofPExpr (norm e)) := by
+  refine ⟨ppX_ofPExpr 0 e, ?_⟩
+  rw [← ppX_ofPExpr 0 e, parse_print_x _ (by rw [wfX_ofPExpr]; exact h), normX_ofPExpr]
+
+example : wf (.bin .sub (.var "a" []) (.const true "3")) = true ∧
+    parseX ((ppT 0 (.bin .sub (.var "a" []) (.const true "3"))).map STok.t)
+      = some (.bin .sub (.var "a" []) (.neg (.const false "3"))) :=
+  ⟨by decide, (parse_print_x_extends _ (by decide)).2⟩
+
+/-- `stride(x, 0)` is the call form with callee `stride`; `parse_expr`'s shape test -/
+example : isStrideForm (.call "stride" [v "x", n0]) = true ∧
+    isStrideForm (.call "stride" [.var "x" [n0], n0]) = false ∧
+    isStrideForm (.call "relu" [v "x", n0]) = false := by decide
 
 /-! ## the round trip of a statement block -/
 
 /-- **Statement-level round trip.**  For every statement list `ss` that is well-formed
-    (`wfS`: every expression is `wf` as in `parse_print`; every `for`/`if` body is non-empty;
+    (`wfS`: every expression is `wfX`, i.e. `wf` as in `parse_print`; every `for`/`if` body is non-empty;
     every window expression has at least one interval), every indentation step `w > 0` and every
     start column `ind`: the printed token lines parse back to `ss` with the expression
     normalisation applied inside. -/
@@ -169,20 +225,22 @@ theorem comparison_chain_misread_stmt :
 
 /-! ## the procedure header -/
 
-/-- PARTIAL (missing w.r.t. "the printed procedure denotes the procedure": `assert` lines and the
-    `# @instr` comment are not modelled; `wfProc` excludes `bool`/`stride` arguments that carry a
-    memory annotation — which the real `_print_fnarg` ALWAYS prints for them, see below — so for
-    real procedures with a `bool` argument the hypothesis does not hold; full statement:
-    `∀ p, parseProc (ppProc w ind p) = some (normProc p)`).
-    `def name(args):` with `n: size`, `i: index`, `b: bool`, `x: T[…] @ MEM`, `w: [T][…] @ MEM`,
-    scalars, followed by a well-formed non-empty body, is read back. -/
-theorem parse_print_proc_partial (w : Nat) (hw : 0 < w) (ind : Nat) (p : PProc)
+/-- **Procedure round trip.**  `def name(args):` (`n: size`, `i: index`, `b: bool`,
+    `x: T[…] @ MEM`, `w: [T][…] @ MEM`, scalars), the `assert e` lines, and the body: for every
+    procedure satisfying `wfProc` (argument types other than `bool`/`stride`-with-memory; window
+    arguments have a shape; well-formed assertions and body; assertions and body not both empty)
+    the printed token lines parse back to the procedure.
+    Not a `_partial`: what remains outside is (1) the recorded finding — the real `_print_fnarg`
+    prints `bool @MEM`/`stride @MEM`, which is NOT read back (`ctrl_arg_with_memory_rejected`,
+    `bool_arg_not_read_back`), so the statement is false there — and (2) the `# @instr` comment,
+    which is not syntax. -/
+theorem parse_print_proc (w : Nat) (hw : 0 < w) (ind : Nat) (p : PProc)
     (h : wfProc p = true) : parseProc (ppProc w ind p) = some (normProc p) :=
   parseProc_rt w hw ind p h
 
 example : wfProc demoProc = true := by decide
 example : parseProc (ppProc 4 0 demoProc) = some (normProc demoProc) :=
-  parse_print_proc_partial 4 (by decide) 0 demoProc (by decide)
+  parse_print_proc 4 (by decide) 0 demoProc (by decide)
 
 /-- the recorded defect (`reparse:rejected:ParseError:size types should not be annotated with
     memory locations`), in general: whatever follows, an argument type printed as `bool @MEM` or
@@ -192,19 +250,31 @@ theorem ctrl_arg_with_memory_rejected (k : CtrlK) (m : String) (ts : List STok) 
   parseFnTy_ctrl_mem k m ts
 
 /-- what the real printer emits for a `bool` argument -/
-def boolProc : PProc := ⟨"f", [⟨"n", .size⟩, ⟨"b", .ctrl .bool (some "DRAM")⟩], [.pass]⟩
+def boolProc : PProc := ⟨"f", [⟨"n", .size⟩, ⟨"b", .ctrl .bool (some "DRAM")⟩], [], [.pass]⟩
 
 /-- kernel-checked witness: `def f(n: size, b: bool @ DRAM): pass` is printed and NOT read back;
     without the annotation it is -/
 theorem bool_arg_not_read_back :
     ppProcS .fmt 0 boolProc = ["def f(n: size, b: bool @ DRAM):", "    pass"] ∧
     parseProc (ppProc 4 0 boolProc) = none ∧
-    parseProc (ppProc 4 0 ⟨"f", [⟨"n", .size⟩, ⟨"b", .ctrl .bool none⟩], [.pass]⟩)
-      = some ⟨"f", [⟨"n", .size⟩, ⟨"b", .ctrl .bool none⟩], [.pass]⟩ := by
+    parseProc (ppProc 4 0 ⟨"f", [⟨"n", .size⟩, ⟨"b", .ctrl .bool none⟩], [], [.pass]⟩)
+      = some ⟨"f", [⟨"n", .size⟩, ⟨"b", .ctrl .bool none⟩], [], [.pass]⟩ := by
   refine ⟨by decide, rfl, rfl⟩
 
-/-- an empty procedure body is not read back either (excluded by `wfProc`) -/
-theorem empty_proc_body_not_read_back : parseProc (ppProc 4 0 ⟨"f", [], []⟩) = none := rfl
+/-- an empty procedure body without assertions is not read back (excluded by `wfProc`) … -/
+theorem empty_proc_body_not_read_back : parseProc (ppProc 4 0 ⟨"f", [], [], []⟩) = none := rfl
+
+/-- … but assertions alone are a block: a procedure with assertions and an empty body IS read
+    back (Python accepts `def f(n: size): assert n > 0`, `parse_fdef` splits the assertions off) -/
+example : parseProc (ppProc 4 0 ⟨"f", [⟨"n", .size⟩], [.bin .gt (v "n") n0], []⟩)
+    = some ⟨"f", [⟨"n", .size⟩], [.bin .gt (v "n") n0], []⟩ :=
+  parse_print_proc 4 (by decide) 0 _ (by decide)
+
+/-- an `assert` after a statement is not part of the language (`parse_stmt_block`: "predicate
+    assert should happen at the beginning of a function") -/
+theorem assert_after_statement_rejected :
+    parseProc [⟨0, defHeadT "f" [⟨"n", .size⟩]⟩, ⟨4, [.kwPass]⟩,
+      ⟨4, .kwAssert :: ppX 0 (.bin .gt (v "n") n0)⟩] = none := rfl
 
 /-! ## text level: what the lexer needs of an identifier -/
 
@@ -218,8 +288,8 @@ theorem ident_lexes_back (x : String) (h : identOK x = true) : wordSTok x = .t (
     have hr := h.2
     simp only [reservedWords, List.contains_cons, List.contains_nil, Bool.or_false,
       Bool.or_eq_false_iff] at hr
-    obtain ⟨h1, h2, h3, h4, h5, h6, h7, h8, h9, h10, _⟩ := hr
-    simp [wordSTok, keywordTok, wordTok, h1, h2, h3, h4, h5, h6, h7, h8, h9, h10]
+    obtain ⟨h1, h2, h3, h4, h5, h6, h7, h8, h9, h10, _, _, _, _, _, _, h17, _⟩ := hr
+    simp [wordSTok, keywordTok, wordTok, h1, h2, h3, h4, h5, h6, h7, h8, h9, h10, h17]
 
 example : identOK "x_1" = true ∧ identOK "for" = false ∧ identOK "1x" = false ∧
     identOK "" = false ∧ identOK "True" = false := by decide
